@@ -64,6 +64,13 @@ def handle (toks : List String) : String :=
       | .ok o => showShootOut o
       | .error e => showErr e
     | _, _ => "bad-op"
+  | "runmd" :: v :: rest =>
+    match parseVariant? v, parseShootIn rest with
+    | some v, some i =>
+      match runMd v i with
+      | .ok o => s!"ok {showStatus o.status} {b01 o.replaced} {o.trialLen} | {showList toString o.live}"
+      | .error e => showErr e
+    | _, _ => "bad-op"
   | "atp" :: v :: ml :: x :: left :: right :: rest =>
     let mlv : Option (Option Nat) := if ml = "-" then some none else (parseNat? ml).map some
     match v, mlv, parseInt? x, parseInt? left, parseInt? right, takeList parseInt? rest with
